@@ -723,6 +723,26 @@ Section RunProofs.
   Qed.
 End RunProofs.
 
+(* --files L next to --diff / --staged (fix D105): the run over the list is the restricted run of the
+   generic statement with the list in the role of the scan and no structure results *)
+Lemma listed_run_is_restricted : forall (R : Type) (eval : path -> option R) canon set listed,
+  listed_run R eval canon (Some set) listed
+    = restricted_run R unit (list path) eval (fun _ => tt) (fun l => l) canon set listed /\
+  listed_run R eval canon None listed
+    = full_run R unit (list path) eval (fun _ => tt) (fun l => l) listed.
+Proof. intros. split; reflexivity. Qed.
+
+Lemma listed_run_spec : forall (R : Type) (eval : path -> option R) canon set listed f r,
+  In (f, r) (fst (listed_run R eval canon (Some set) listed)) <->
+  In (f, r) (fst (listed_run R eval canon None listed)) /\
+  In f listed /\ exists c, canon f = Some c /\ In c set /\ canon c = Some c.
+Proof.
+  intros R eval canon set listed f r.
+  destruct (listed_run_is_restricted R eval canon set listed) as [-> ->].
+  destruct (restricted_run_spec R unit (list path) eval (fun _ => tt) (fun l => l) canon set listed) as [_ [H _]].
+  rewrite H. rewrite filter_by_set_spec. reflexivity.
+Qed.
+
 (* ------------------------------------------------------------------ index vs HEAD *)
 
 Lemma assoc_path_app : forall (A : Type) p (l1 l2 : list (path * A)),
